@@ -13,7 +13,9 @@ ROWS = [("pilot_lo", "thorough"), ("pilot_any", "thorough"), ("pilot_mixedcase_a
         ("production_upper_lan", "thorough"), ("production_v6", "thorough"), ("production_padded_lo", "thorough"), ("benchmark_any", "thorough"), ("invalid_env", "thorough"), ("empty_env", "thorough")]
 F = [("config.rs", "validate"), ("config.rs", "is_loopback_host")]
 HARNESSES = [KH("O18.1/" + r, "c18_" + r, "validate() accepts only configurations allowed by the property statement (row %s)" % r, src="config.rs", functions=F,
-                bounds="environment/host literals of row %s; 13 symbolic settings incl. snapshot interval over all u64" % r, tier=t, timeout=900) for r, t in ROWS]
+                bounds="environment/host literals of row %s; 13 symbolic settings incl. snapshot interval over all u64" % r, tier=t, timeout=1500,
+                expect_covers=(1 if r in ("invalid_env", "empty_env") else None))  # an unknown / empty environment name is always rejected: only the "rejected" cover is satisfiable
+             for r, t in ROWS]
 
 
 V = "config::KyroDbConfig::validate"
